@@ -109,7 +109,18 @@ def run(rep, tier):
     rep.analysed("xdis.load.load_module_from_file_object")
     n_acc = 0
     for mgc in sorted(m2v):
+        # every table key must resolve to a version tuple: the loader relies on it (only KeyError is handled there, C11-R1)
+        try:
+            vt_ = F.apply(f_t, [mgc], {})
+            okv = isinstance(vt_, tuple) and len(vt_) >= 2 and all(isinstance(x, int) for x in vt_)
+        except (PyExc, FoldError) as e:
+            vt_, okv = "raises %s" % e, False
+        rep.ob("R3", "xdis.magics.magic_int2tuple", "magic=%d:resolves" % mgc, okv, expected="a (major, minor[, micro]) tuple", derived=vt_,
+               msg="magic %d is in the table (%r) but magic_int2tuple cannot turn it into a version: load_module fails with a non-ImportError" % (mgc, m2v[mgc]))
         hs = analyse(T, mgc)
+        if hs.disposition == "reject" and not all(k == "reject:ImportError" for k in hs.leaf_kinds):
+            rep.ob("R3", "xdis.load.load_module_from_file_object", "magic=%d:clean-disposition" % mgc, False, expected="accepted, or refused with ImportError", derived=hs.leaf_kinds,
+                   msg="a file with table magic %d makes the loader raise %s" % (mgc, hs.leaf_kinds))
         if hs.disposition != "accept" or hs.ret is None:
             continue
         n_acc += 1
